@@ -51,7 +51,7 @@ def betas_spec():
 # ------------------------------------------------------------------ fillers by slot type
 FILL = {
     'any': [('var', 'x1'), ('beta', 'b_z'), ('num', 2.0), ('beta', 'a_fix'), ('beta', 'Z_fix'), ('var', 'x2'), ('beta', 'B2'),
-            ('num', 0.5), ('beta', 'b10'), ('beta', 'b_a')],
+            ('num', 0.5), ('beta', 'b10'), ('beta', 'b_a'), ('num', 0.123456789012), ('num', -3.75e-07)],
     'pos': [('var', 'x1'), ('num', 2.0), ('beta', 'a_fix'), ('+', ('var', 'x1'), ('num', 1.0)), ('num', 0.5)],
     'small': [('var', 'x2'), ('beta', 'B2'), ('num', 0.5), ('beta', 'b_z'), ('var', 'x1')],
     'key': [('var', 'z')],
@@ -126,6 +126,9 @@ KINDS = {
 # kinds usable only as a child (no expression slots)
 LEAF_KINDS = {
     'num': lambda r: ('num', 1.5),
+    'num_long': lambda r: ('num', 0.3333333333333333),
+    'num_tiny': lambda r: ('num', 2.5e-07),
+    'num_big': lambda r: ('num', 123456.789012),
     'bool': lambda r: ('bool', True),
     'beta_free': lambda r: ('beta', 'b10'),
     'beta_fixed': lambda r: ('beta', 'a_fix'),
